@@ -138,7 +138,11 @@ var peerOddIRIs = []string{"acct:user@peer.example", "urn:uuid:6ba7b810-9dad-11d
 	"/users/1", "users/1", "", "#main-key", "?page=2", "//peer.example/users/1", "https://[::1]:8443/users/1", "https://peer.example:/users/1",
 	"https://PEER.example/Users/1/", "https://user:pw@peer.example/users/1", "https://peer.example/users/%zz", "https://peer.example/users/a%20b?x=%41#frag",
 	"https://peer.example/users/éè", "https://xn--nxasmq6b.example/users/1", "http://peer.example:80/users/1/../2", "https://peer.example/" + "very/long/" + "path/path/path/path/path/path/path/path/path/path/path/path/path/path/path/path",
-	"https://www.w3.org/ns/activitystreams#Public", "as:Public", "Public", "https:", "https://", ":", "://", "tag:peer.example,2024:objectId=1:objectType=Status"}
+	"https://www.w3.org/ns/activitystreams#Public", "as:Public", "Public", "https:", "https://", ":", "://", "tag:peer.example,2024:objectId=1:objectType=Status",
+	// other schemes in use or proposed in the fediverse and next to it, with and without the parts that usually follow
+	"ap://did:key:z6MkhaXgBZDvotDkL5257faiztiGiC2QtKLGpbnnEGta2doK/actor", "ap://did:key:z6MkhaXgBZDvotDkL5257faiztiGiC2QtKLGpbnnEGta2doK", "ap://", "ap:",
+	"at://did:plc:ewvi7nxzyoun6zhxrhs64oiz/app.bsky.feed.post/3k", "at://", "ipfs://bafybeigdyrzt5sfp7udm7hu76uh7y26nf3efuylqabf3oclgtqy55fbzdi", "nostr:npub10elfcs4fr0l0r8af98jlmgdh9c8tcxjvz9qkw038js35mp4dma8qzvjptg",
+	"hyper://a1b2c3/x", "gemini://peer.example/", "data:text/plain;base64,SGk=", "file:///etc/hostname", "magnet:?xt=urn:btih:c12fe1c06bba254a9dc9f519b335aa7c1367a88a", "javascript:void(0)", "ws://peer.example/socket"}
 
 // times the way peers write them
 var peerTimes = []string{"2024-03-05T10:00:00Z", "2024-03-05T10:00:00.123Z", "2024-03-05T10:00:00.123456789+01:00", "2024-03-05T10:00:00-23:59", "2024-03-05T10:00Z",
